@@ -1,6 +1,10 @@
 """C12 -- inbound in-flight limits (v3 part): the limiter inflight::InFlightServiceImpl as driven by io.rs."""
 import gen_limiter as G
+from props import inbound_common as IB
 from props.base import Part
+
+PROPS_FILES = ["C12", "C12v5"]
+USES_GEN = True
 
 RULE = ("operation sequences on one limiter behind ntex_service::Pipeline::bind (poll_ready / hand-over of a "
         "frame with its first poll / hand-over to a spawned task / first poll of a spawned call / completion "
@@ -25,8 +29,10 @@ ASSUMPTIONS = [
     "`SizedRequest for Decoded` produce; assumed here, property of the decoder elsewhere",
 ]
 PARTIAL = [
-    "v3 limiter unit only: the v5 receive-maximum half of C12 (quota exceeded -> DISCONNECT 0x93) is not covered "
-    "here; the v5 server uses the same limiter with max_cap = 0 (bytes only), which the theorems cover as mc = 0",
+    "the v5 receive-maximum half (quota exceeded -> DISCONNECT 0x93, within quota never refused, the quota counts "
+    "unacknowledged QoS>0 publishes only) is proved on the protocol-decision layer of Model/Inbound.v (Props/C12v5.v) "
+    "and tied to real v5 servers/clients by the inbound cases; the v5 server uses the same limiter with max_cap = 0 "
+    "(bytes only), which the limiter theorems cover as mc = 0",
     "'reading resumes' is proved at the limiter interface (C12_no_lost_wake: the dispatcher's waker is woken; "
     "C12_resume: its next poll answers Ready); that the woken io dispatcher then reads and handles every remaining "
     "packet is covered at connection level by the correspondence runs of the inbound engines, not by a theorem",
@@ -99,14 +105,23 @@ def parts(tier, rng):
     res = [LimPart("corpus", "limiter", list(CORPUS), shards=1, rule="hand written cases")]
     for name, cases in G.all_cases(rng, "quick" if tier == "quick" else "full"):
         res.append(LimPart(name, "limiter", cases, shards=16, rule=name, vm_slice=200))
+    # MQTT 5 half: Receive Maximum, enforced by the v5 dispatchers (model: Model/Inbound.v, theorems Props/C12v5.v)
+    for p in IB.make_parts(tier, rng, ("C12",)):
+        if p.ver == 5:
+            p.name = "v5-receive-maximum-" + p.name
+            res.append(p)
     return res
 
 
 def replay_parts(rp):
+    if rp.get("engine", "limiter") != "limiter":
+        return IB.replay_parts(rp, ("C12",))
     return [LimPart("replay", "limiter", [rp["case"]], shards=1)]
 
 
 def known_signature(part, case, impl_obs, oracle):
+    if isinstance(part, IB.InbPart):
+        return IB.known_signature(part, case, impl_obs, oracle)
     return None
 
 
@@ -124,6 +139,8 @@ CLAUSES = {
 
 
 def clause_text(part, oracle):
+    if isinstance(part, IB.InbPart):
+        return IB.clause_text(part, oracle)
     f = oracle.split(";")[0].split(",")
     cl = f[1] if len(f) > 1 else "?"
     return "at operation %s: %s" % (f[2] if len(f) > 2 else "?", CLAUSES.get(cl, "clause " + cl))
